@@ -150,5 +150,10 @@ func (f Descent) locate(pp Expr, data any, rest Expr, max int) (locs []Expr) {
 
 // Walk each element in the tree of elements.
 func (f Descent) Walk(rest, path Expr, nodes []any, cb func(path Expr, nodes []any)) {
+	if 0 < len(rest) {
+		// The node the descent starts at is a candidate for the rest of
+		// the path as well, not only the nodes below it.
+		rest[0].Walk(rest[1:], path, nodes, cb)
+	}
 	wildWalk(rest, path, nodes, cb, f)
 }
